@@ -127,6 +127,43 @@ Definition copy_from_extent (o : obj) (e : extent) (inv : bool) : copy_result :=
                    end
   end.
 
+(* GridObject.copy(mask = m) (block model, octree, ...: what EntityContainer.copy_from_extent calls with the centroid mask):
+   a data child whose array has the mask's shape is copied with the entries outside the mask blanked, any other child as
+   it is; the blank array is np.ones_like(values) * nan (a float array; nan becomes the kind's no-data value in the values
+   setter; undefined for str arrays: TypeError) or, repaired, np.full_like(values, child.nan_value) ([fill_text]) *)
+Definition grid_child_copy (fill_text : bool) (k : dkind) (m : list bool) (v : vals) : res vals :=
+  if negb (Nat.eqb (length m) (length v)) then Ok v
+  else if dkind_eqb k KText && negb fill_text then Err TypeError
+  else Ok (fill_masked (ndv k) m v).
+
+Fixpoint grid_children_copy (fill_text : bool) (m : list bool) (ks : list (dkind * vals)) : res (list vals) :=
+  match ks with
+  | [] => Ok []
+  | (k, v) :: r =>
+      match grid_child_copy fill_text k m v with
+      | Err e => Err e                                   (* the first child that cannot be copied aborts the copy *)
+      | Ok v' => match grid_children_copy fill_text m r with Ok r' => Ok (v' :: r') | Err e => Err e end
+      end
+  end.
+
+(* copy_from_extent of a block model / octree: None when no mask is returned, else the children's values of the copy *)
+Definition grid_object_copy_from_extent (fill_text : bool) (centroids : list pt) (e : extent) (inv : bool)
+           (ks : list (dkind * vals)) : res (option (list vals)) :=
+  match grid_object_mask centroids e inv with
+  | Err er => Err er
+  | Ok None => Ok None
+  | Ok (Some m) => match grid_children_copy fill_text m ks with Ok l => Ok (Some l) | Err er => Err er end
+  end.
+
+Definition grid_copy_agrees (fill_text : bool) (centroids : list pt) (e : extent) (inv : bool) (ks : list (dkind * vals))
+           (obs : res (option (list vals))) : bool :=
+  match grid_object_copy_from_extent fill_text centroids e inv ks, obs with
+  | Ok None, Ok None => true
+  | Ok (Some a), Ok (Some b) => list_eqb vals_eqb a b
+  | Err x, Err y => err_eqb x y
+  | _, _ => false
+  end.
+
 (* Group.copy_from_extent: every child is asked for its own copy_from_extent into the new group; the group copy is removed
    again (None) when no child produced anything.  [copies] = the children's own results, None = nothing selected *)
 Definition group_copy_from_extent {A} (copies : list (option A)) : option (list A) :=
@@ -245,3 +282,9 @@ Definition agree13 (o : obj) (e : extent) (inv : bool)
   rmask_eqb (obj_mask o e inv) omask
   && copy_eqb (copy_from_extent o e inv) ocopy
   && forallb (fun ad => rmask_eqb (data_mask o (fst ad) e inv) (snd ad)) odata.
+
+(* histories on one object: the extent read at any moment is the bounding box of the current vertices *)
+Definition ext_eqb (a b : extent) : bool :=
+  list_eqb (fun p q => Z.eqb (fst p) (fst q) && Z.eqb (snd p) (snd q)) a b.
+Definition extent_agrees (o : obj) (obs : extent) : bool :=
+  match obj_extent (verts o) with Ok bb => ext_eqb bb obs | Err _ => false end.
